@@ -55,7 +55,8 @@ claimed["C16"] = dict(
     text="Partial claim: for every matching request within the bounds, in steady state (same request served once before), no "
          "SSA instruction that can heap-allocate is executed between ServeHTTP entry and return (allocation-event monitor of "
          "the executor, decided per path class by the solver); every event found is re-measured natively with "
-         "testing.AllocsPerRun before it is reported, and sampled passing path classes are measured natively as 0 allocs. "
+         "testing.AllocsPerRun before it is reported (one witness per distinct set of allocation sites), and sampled passing "
+         "path classes are measured natively as 0 allocs; also through a writer offering the real server's optional interfaces. "
          "Compile-time allocation decisions (escape analysis) are outside what the solver sees.",
     design="5 C16", technique="bounded symbolic execution of go/ssa + SMT with an allocation-event monitor; native AllocsPerRun on witnesses")
 
@@ -83,7 +84,8 @@ claimed["C11"] = dict(
          "reference (per-method R-match/R-tsr giving the set of methods that serve the host and path directly or by ignoring "
          "a trailing slash): handler kind (404/405/OPTIONS), scope, absence of route/pattern/parameters in the context and "
          "the Allow header (compared as a set) for every Host/path within the bounds, the target '*', five request methods "
-         "and the four option combinations; also for percent-encoded requests (RawPath set).",
+         "and the four option combinations; also for percent-encoded requests (RawPath set) and with CONNECT among the "
+         "methods; Allow never lists the request's own unserved method.",
     design="5 C11", technique=T)
 
 claimed["C03"] = dict(
@@ -101,8 +103,8 @@ claimed["C04"] = dict(
          "five endings (Commit, Abort, managed commit, error after j ops, panic after j ops with j solver-chosen) the txn "
          "view equals the model including its own writes, the router view and fresh readers equal the pre-state until "
          "commit and the post-state after, aborted/failed/panicked transactions publish nothing, the settled txn refuses "
-         "use, double Commit/Abort are no-ops, a new writer can lock (mutex model), and read-only txns refuse writes "
-         "without effect.",
+         "use, double Commit/Abort are no-ops, a new writer can lock (mutex model), read-only txns refuse writes "
+         "without effect, and a snapshot of a write transaction refuses writes and settles without publishing or unlocking.",
     design="5 C04", technique=T)
 
 claimed["C14"] = dict(
@@ -110,7 +112,8 @@ claimed["C14"] = dict(
          "net/http.Redirect from go/ssa, reached through ServeHTTP, over every call sequence up to k with solver-chosen "
          "status codes, accepted byte counts and failure points, against ghost counters kept inside the underlying writer "
          "stub: Status, Size, Written, single final status, no header after body, byte order, capability delegation / "
-         "ErrNotSupported, helper outputs, Redirect code range, and A/B equality across capability variants.",
+         "ErrNotSupported, helper outputs (also over a preset Content-Type), Redirect code range, and A/B equality across "
+         "capability variants; every sequence runs on a recorder recycled from earlier requests that wrote, flushed and hijacked.",
     design="5 C14", technique="bounded symbolic execution of go/ssa + SMT (z3, QF_BV) against ghost-state oracle in the environment stub; A/B across variants; native replay")
 
 claimed["C15"] = dict(
@@ -128,7 +131,8 @@ claimed["C20"] = dict(
          "RemoteIP) through ServeHTTP for every status code 100..999 (solver), implicit 200, redirects with and without "
          "Location, no write, superfluous WriteHeader calls after the response started, and panic, in five handler kinds and four resolver configurations: exactly one record after "
          "the handler, level by status class, status/method/host/path attributes, location rule, message rule; and A/B "
-         "against the same router without the middleware (identical status, headers, bytes, panic value).",
+         "against the same router without the middleware (identical status, headers, bytes, panic value); plus two concurrent "
+         "requests through the same logged route under the schedule explorer and the race monitor.",
     design="5 C20", technique=T)
 
 claimed["C13"] = dict(
@@ -143,14 +147,15 @@ claimed["C19"] = dict(
     text="Bounded symbolic execution of the real option closures, New, NewRoute, Handle, Update, Route accessors and "
          "Context.ClientIP: every option sequence within the bounds (booleans solver-chosen) folds to the documented state "
          "(last wins, one trailing-slash mode disables the other, nil per-route resolver means none, router-level nil "
-         "ignored, annotations last value per key); invalid options give ErrInvalidConfig / ErrInvalidRoute and the crash "
+         "ignored, annotations last value per key, route middleware exactly the ones given in the order given); invalid options give ErrInvalidConfig / ErrInvalidRoute and the crash "
          "monitor shows no reachable panic; ClientIP uses the route's resolver in route handlers and the router's elsewhere.",
     design="5 C19", technique=T)
 
 claimed["C12"] = dict(
     text="Bounded symbolic execution of the real context life cycle (cTx.reset/resetWithWriter/resetNil, ServeHTTP, Lookup, "
          "CloneWith, Clone, Close, pool Get/Put, net/url query parsing and http.Request.Clone from source) over every "
-         "sequence of k request shapes and every choice of pooled context: each getter observed in a handler is the "
+         "sequence of k request shapes (incl. a hijacking handler, a direct match through an infix catch-all route, an "
+         "iterator loop left early, nested Lookup / CloneWith inside handlers) and every choice of pooled context: each getter observed in a handler is the "
          "documented function of the current request (distinct tokens per request in every field), and clones re-read "
          "after later requests still show their own request. Sequential histories only; see level_note.",
     design="5 C12", technique="bounded symbolic execution of go/ssa + SMT; exhaustive shape sequences x pool choices by decision search; native replay",
@@ -171,7 +176,9 @@ claimed["C06"] = dict(
          "transaction parked at each stage of its life, including readers (Lookup context, Iter, read-only Txn) obtained on a "
          "tree that was replaced before the writer parked, and a 30-level deep tree (mutex model with an owner): for every host, path and pattern within "
          "the bounds and every feasible path of the read code, no Lock on a held mutex is reached (it would be reported as "
-         "a blocked-forever violation with its witness); conversely a second writer does block. This is the behavioural "
+         "a blocked-forever violation with its witness; a call that polls without end counts as blocked); conversely a second "
+         "writer does block, and a write completes while readers are parked in the middle of their reads (also deleting the "
+         "route whose handler is running). This is the behavioural "
          "counterpart, over all inputs in the bound, of the call-graph argument that read paths never take the writer lock; "
          "code no explored input reaches is not covered.",
     design="5 C06", technique="bounded symbolic execution of go/ssa + SMT with a mutex-owner (blocked) monitor; native replay by timeout")
@@ -181,7 +188,8 @@ claimed["C05"] = dict(
          "synchronisation granularity (mutex, atomic pointer, sync.Pool, thread start/exit) with a pre-emption bound, of "
          "small thread programs over the real code: writers against writers (different / same route, Update vs Delete), a "
          "two-route transaction against a reader, a writer against two requests, an aborted transaction against a reader, "
-         "two requests, two NewRoute calls, Update+write-below and Truncate+refill transactions against a reader. On every schedule the observable obligations hold (no lost update, exactly one "
+         "two requests, two NewRoute calls, Update+write-below and Truncate+refill transactions against a reader, Delete against "
+         "Handle, a route moved between methods against a request, a transaction settling its own snapshot against a writer. On every schedule the observable obligations hold (no lost update, exactly one "
          "winner, all-or-nothing snapshots, monotonic reads, aborted writes invisible, no panic) and the vector-clock "
          "happens-before monitor reports no unordered conflicting access on any heap cell.",
     design="5 C05", technique="bounded symbolic execution of go/ssa with schedule choices as decision variables + happens-before race monitor; races confirmed with go test -race, schedule-dependent assertion failures replayed natively under the same schedule (instrumented overlay build)",
